@@ -23,6 +23,12 @@ def execute(case):
         else:
             seq = build(score, via4(idx))
             line["in"] = canonical_in(seq, score)
+        if idx % 9 == 8:
+            # history: the same object had its note lengths quantised to the same values before, and the notes were
+            # stretched since (scale by 3 on the relative side); the judged call starts from what the object holds now
+            seq.quantise_note_lengths(list(values), do_not_extend=noext)
+            seq.scale(3, quantise_afterwards=False)
+            line["in"] = P.raw_abs(seq)
         perturb_returned_defaults()
         if values == list(DEFAULT_VALUES) and idx % 2:
             seq.quantise_note_lengths(do_not_extend=noext)     # the default values through the default argument
@@ -50,7 +56,9 @@ def run(ctx):
                     cases.append((len(cases), sc, vl, ne))
         if not ctx.thorough:
             cases = [c for c in cases if (c[0] // 14) % 5 == 0 or (c[0] % 14) in ((c[0] // 14) % 14, (c[0] // 14 + 7) % 14)]
-        vls = g["valuelists"] + [list(DEFAULT_VALUES), [3, 9], [1], [24, 12, 6]]
+        # (lists with repeated entries are what chaining the library's duration helpers produces)
+        vls = g["valuelists"] + [list(DEFAULT_VALUES), [3, 9], [1], [24, 12, 6], [24, 12, 6, 36, 18, 9, 16, 8, 4, 24, 12, 6],
+                                 [6, 3, 6], [2, 5, 5, 2, 7]]
         for _ in range(60000 if ctx.thorough else 8000):
             sc = random_score(ctx.rng, 12 if ctx.rng.random() < .5 else 5, ctx.rng.choice([20, 60, 200]),
                               pitches=(60, 61) if ctx.rng.random() < .7 else (60,))
